@@ -22,7 +22,7 @@ theorem src_updatesSince_loop_bound :
     occurs isMainLoop skel_UpdatesSince = true := by decide
 
 def isOffBestTest : Tok → Bool
-  | .ifc ["onBestChain()", "index"] ["!"] => true
+  | .ifc ["closure1()", "index"] ["!"] => true
   | _ => false
 
 /-- off the best chain: one `RevertBlock`; on it: one `ApplyBlock` (of a block looked up with
